@@ -37,7 +37,7 @@ def numeric(prop, src, build='asan', nq=20000, nt=1000000, groups_q=None, groups
         n = nq if tier == 'quick' else nt
         jobs = []
         for b in bs:
-            if not b.path or len(b.defs) < 2: continue
+            if not b.path or len(b.defs) < 2 or '-memcheck-' in b.name: continue
             nn = n
             if 'MS=float' in b.defs: nn = int(n * float_n_scale)
             if n_scale: nn = max(1, int(nn * n_scale.get(b.defs[0][3:], 1.0)))
@@ -142,10 +142,24 @@ REGISTRY['C09'] = numeric('C09', 'c09_pure.cpp', nq=4000, nt=100000, min_shards=
                                '13 aliased assignment forms vs the unaliased computation; 20 fixed golden operand sets evaluated first thing in half of the processes and in the middle / at the end of every process: one digest per group across all processes; '
                                + RULE_STRATA, assumptions=ASSUME_FP)
 
-REGISTRY['C10'] = numeric('C10', 'c10_views.cpp', nq=2500, nt=50000, groups_q=CORE + ['R1', 'R9', 'BT1', 'BT4'], groups_t=CORE + ['R1', 'R9'] + BUNDLES_T + ['BL0'],
+def memcheck_bins(src, groups):
+    def f(tier):
+        return [Bin(src, 'opt', ['MG=' + g, 'MS=double'], name=src.split('.')[0] + '-memcheck-' + g) for g in groups] if tier == 'thorough' else []
+    return f
+
+
+def memcheck_jobs(src, n):
+    def f(tier, seed, bs):
+        if tier != 'thorough': return []
+        return [{'bin': b, 'n': n, 'seed': seed + 7, 'tag': 'memcheck/' + b.defs[0][3:], 'wrap': ['valgrind', '-q', '--error-exitcode=99', '--leak-check=no', '--track-origins=no'], 'args': ['--arg', 'noselfcheck=1']}
+                for b in bs if '-memcheck-' in b.name and b.path]
+    return f
+
+
+REGISTRY['C10'] = numeric('C10', 'c10_views.cpp', nq=2500, nt=50000, extra_bins=memcheck_bins('c10_views.cpp', ['SE2', 'SE3', 'SGAL3', 'BT1']), extra_jobs=memcheck_jobs('c10_views.cpp', 1500), groups_q=CORE + ['R1', 'R9', 'BT1', 'BT4'], groups_t=CORE + ['R1', 'R9'] + BUNDLES_T + ['BL0'],
                           rule='~45 non-mutating operations evaluated with 9 combinations of operand kinds {owning, Map, Map<const>} for (X, Y, t) and compared bit for bit with the owning computation; 13 group and 12 tangent mutating members through a '
                                'mutable view; every viewed buffer is, at random, an exactly-sized malloc block (ASan red-zones), the same shifted by one scalar (8-/4-byte-only alignment), or embedded between NaN-payload canaries compared bit for bit '
-                               'after each call; copy/move/cross-kind construction and assignment; ' + RULE_STRATA, assumptions=ASSUME_FP + ['ASan red-zones detect reads/writes adjacent to exactly-sized heap blocks; far out-of-bounds accesses could escape them'])
+                               'after each call; copy/move/cross-kind construction and assignment; ' + RULE_STRATA, assumptions=ASSUME_FP + ['ASan red-zones detect reads/writes adjacent to exactly-sized heap blocks; far out-of-bounds accesses could escape them', 'thorough tier: the -O2 build of the same monitor also runs under valgrind memcheck (1500 cases each for SE2, SE3, SGal3 and one bundle) as a second detector'])
 
 REGISTRY['C11'] = numeric('C11', 'c11_bundle.cpp', nq=1500, nt=30000, groups_q=ALL_BUNDLES, groups_t=ALL_BUNDLES, float_groups=['BT3', 'BT5', 'BA'],
                           rule='21 bundle layouts (7 cyclic triples of SO2 SE2 SO3 SE3 SE_2_3 SGal3 R3 = every group first/middle/last, 7 single-element bundles, 3 with repeats, one of all seven + R5, the 3 layouts of the existing tests); per case '
